@@ -68,7 +68,7 @@ def check(case, M):
                 if miss:
                     fail("oracle", "a strictly cheaper (more probable) program was not yielded before", f"{len(miss)} e.g. {miss[:3]} (cost < {top})")
                 complete = not miss
-            except E.TooLarge:
+            except (E.TooLarge, RecursionError):
                 complete = None
     if case.get("fseed") is not None and not failures:
         float_search(case, r, fail)
@@ -125,7 +125,7 @@ def float_search(case, r, fail):
             owed = [p for p, _ in r["lang"] if prob_of(g, probs, p, g.start) > low * (1 + TOL)]
         else:
             owed = above(g, probs, g.start, low * (1 + TOL), 30000)
-    except E.TooLarge:
+    except (E.TooLarge, RecursionError):
         return
     miss = sorted(E.show(p) for p in owed if E.show(p) not in Y)
     if miss:
